@@ -31,10 +31,12 @@ class QuaHitList(HitList[QuaHit], QuaNoteList[QuaHit]):
     def to_yaml(self):
         df = self.df.copy()
         df.column += 1
-        return (
+        records = (
             df.astype(dict(offset=int, column=int))
             .rename(
                 dict(offset="StartTime", column="Lane", keysounds="KeySounds"), axis=1
             )
             .to_dict("records")
         )
+        # A key that only some objects carry (e.g. HitSound) is absent, not NaN, on the others
+        return [{k: v for k, v in r.items() if v == v} for r in records]
